@@ -215,6 +215,38 @@ CHECKS = {
    technique="Coq proof (state invariant by induction over the event list, refinement to `filter arrivals`) + exhaustive "
              "small-scope correspondence against the real event loop",
    ref="5/C13"),
+ "C14": dict(
+   text="Coq theorems over Models/Pipes.v -- networks of goroutine skeletons (control-flow graphs of every `go func` body: each "
+        "channel send/receive/select, close, WaitGroup operation, cancel call, deferred calls compiled onto every exit path) "
+        "with unbuffered and buffered channels, WaitGroups and a cancellation flag raised by the root's cancel() or by the "
+        "deadline at ANY moment, under every interleaving: for EVERY network that passes the boolean checker "
+        "Models/PipesCheck.v (proved sound in Proofs/PipesCheckProofs.v) (1) no reachable state can close a closed channel, "
+        "send on a closed channel or misuse a WaitGroup (invariants over process histories, must/may certificates, fan-in "
+        "ordering through the WaitGroup); (2) after cancellation a state in which nothing can move has every goroutine "
+        "exited and every channel the session owes closed (minimal-rank argument over the wait-for order); (3) after "
+        "cancellation there is no infinite execution (weighted measure: buffered values, data-loop counters, node ranking). "
+        "Gen/PipeNets.v -- the networks of handleGrouping (Grouping, registerGroup, both error fan-ins: 35 goroutines, 30 "
+        "channels) and of handleQuery for each request type -- is REGENERATED from /repo on every run by translate/skel "
+        "(go/ast symbolic execution of the handler: inlines calls, starts a process per go statement, allocates channels, "
+        "computes the certificates), and C14_nets_checked re-runs the checker on them by vm_compute. The networks translated "
+        "before the repairs are rejected (C14_old_rejected) and a 3-goroutine instance of the old fan-in is shown to reach a "
+        "cancelled, stuck, non-final state (C14_old_leak). Implementation side: the real handlers (handleGrouping / "
+        "handleQuery over real pdkg and queryLoop instances on the in-memory network), each scenario in a child process, the "
+        "deadline placed from 'already expired' to 'after completion' (through the chain adaptor's block time), faults: "
+        "silent peers, peer silent after its k-th message, invalid deals, invalid / nil / short-content shares, a stream of "
+        "invalid shares across the deadline, buffered shares with a fetch that outlasts the deadline, fetch failure, bad "
+        "selector, chain call failure, slow network; afterwards the goroutine dump filtered to the packages under test must "
+        "be empty and the process must not have died (send on closed channel).",
+   note=TB + "The translator translate/skel is trusted to be faithful (its output carries source positions and is checked, "
+        "not trusted, for the static conditions). partial: termination is stated under the scheduling assumption that a ready "
+        "ctx.Done arm is taken (gstep true); opaque calls (p2p.Request with the session context, chain calls, HTTP fetch with "
+        "its own 60 s timeout) are assumed to return; pdkg.Loop and queryLoop appear only through what they do with a "
+        "registered reply channel (hand-written in the translator); the per-member retry goroutines started in a data loop are "
+        "represented by one instance; the Go runtime itself is outside the model - the child-process scenarios observe it.",
+   technique="Coq proof (interleaving semantics, history invariants, wait-for rank induction, well-founded measure; boolean "
+             "checker proved sound and run by vm_compute on networks regenerated from the Go sources) + goroutine-leak / "
+             "panic scenarios against the real handlers",
+   ref="5/C14"),
  "C15": dict(
    text="Coq theorems over the Gallina model of writeTo/readFrom (Models/Framing.v) where a connection is an arbitrary list of "
         "chunks: for every list of payloads of 1..2^20 bytes and EVERY chunking of the concatenated frames the reader returns "
@@ -230,7 +262,7 @@ CHECKS = {
 NOT_YET = {
 }
 
-PENDING = ["C01","C02","C03","C04","C05","C06","C07","C08","C10","C11","C13","C14","C15","C16","C17","C18","C19","C20"]
+PENDING = ["C01","C02","C03","C04","C05","C06","C07","C08","C10","C11","C13","C15","C16","C17","C18","C19","C20"]
 
 def main():
     checks = []
